@@ -25,7 +25,7 @@ EXHAUSTIVE = True
 UNITS = ['src/diagnostics/CheckupReliability.cpp', 'src/diagnostics/DiagnosticStatus.cpp', 'src/diagnostics/Diagnostic.cpp',
          'src/diagnostics/DiagnosticReport.cpp', 'verif:inst_concurrency.cpp']
 ENGINES = 'E-ORD + E-STATE + E-WIT over romea-facts'
-TECHNIQUE = 'a skip keyed on the stored status vs constructors that store a caller-supplied diagnostic, a skipped value store must compare the value, switch statements executed by the reader, both status folds run (E-STEP, concrete sequences and iterators) on every status list of 1..4 entries, filtered merges and concatenations (element-wise loops with a guard), threshold comparisons of the double instantiations evaluated in IEEE arithmetic on cells with representable thresholds (expected class in exact rationals), printf buffer bound of non-template printers, status combination evaluated on all 16 pairs by the step evaluator, sweep of every function read (and its in-repo callees) for frozen function-local statics, single precision inside double computations, lossy copy constructors, presence- or argument-keyed member caches, reference members bound to constructor arguments, loop accumulators that are members, members derived in the constructor and not refreshed by setters, results returned by reference to a member buffer, members filled from an argument under a condition that ignores it, hidden non-virtual base members, self-bound reference members, reductions that accumulate in float; exhaustive evaluation of the extracted decision trees over the finite order partition of their own comparison operands; symbolic per-path final-state reading; exhaustive 4-value status algebra'
+TECHNIQUE = 'check-up constructors read by value (stored tolerance and reference value are the arguments), the value is received and printed with the own type of the check-up, a skip keyed on the stored status vs constructors that store a caller-supplied diagnostic, a skipped value store must compare the value, switch statements executed by the reader, both status folds run (E-STEP, concrete sequences and iterators) on every status list of 1..4 entries, filtered merges and concatenations (element-wise loops with a guard), threshold comparisons of the double instantiations evaluated in IEEE arithmetic on cells with representable thresholds (expected class in exact rationals), printf buffer bound of non-template printers, status combination evaluated on all 16 pairs by the step evaluator, sweep of every function read (and its in-repo callees) for frozen function-local statics, single precision inside double computations, lossy copy constructors, presence- or argument-keyed member caches, reference members bound to constructor arguments, loop accumulators that are members, members derived in the constructor and not refreshed by setters, results returned by reference to a member buffer, members filled from an argument under a condition that ignores it, hidden non-virtual base members, self-bound reference members, reductions that accumulate in float; exhaustive evaluation of the extracted decision trees over the finite order partition of their own comparison operands; symbolic per-path final-state reading; exhaustive 4-value status algebra'
 EXPLANATION = ('Each evaluate() is read symbolically with all helpers inlined (per path: conditions, stored status/message/value, returned value) and evaluated on every cell '
                'of the order partition of its comparison operands, including boundaries and the degenerate epsilon=0 partition; worse() is evaluated on all 16 pairs / 64 triples; '
                'worseStatus is checked as a fold by finite-domain induction; report concatenation by structure. Finite domains are enumerated completely.')
